@@ -1,0 +1,63 @@
+//go:build verif
+
+package pool
+
+// Contracts for the govc verifier (/verif). This file contains comments only;
+// it does not change the compiled package.
+//
+// delta(c) is the net amount the current call has added to atomic counter c
+// (declared in /verif/stubs/atomic.spec). "Charged" quota is -delta.
+
+//@ stub (pkg/filesystem/pool.FilePool).NewFile
+//@   pure -- the base pool is a different object: it does not touch this pool's quota counters
+//@ stub (github.com/buildbarn/bb-storage/pkg/filesystem.FileReadWriter).Close
+//@   pure -- the underlying file does not touch the quota counters or the wrapper's size field
+//@ stub (github.com/buildbarn/bb-storage/pkg/filesystem.FileReadWriter).Truncate
+//@   pure
+//@ stub (github.com/buildbarn/bb-storage/pkg/filesystem.FileReadWriter).WriteAt
+//@   pure
+//@   ensures 0 <= r0 && r0 <= len(arg1)
+
+//@ func (*quotaMetric).allocate
+//@   props C15
+//@   modifies delta[&m.remaining]
+//@   loop 0 invariant delta(&m.remaining) == old(delta(&m.remaining))
+//@   ensures taken: r0 ==> delta(&m.remaining) == old(delta(&m.remaining)) - v
+//@   ensures refused-no-effect: !r0 ==> delta(&m.remaining) == old(delta(&m.remaining))
+
+//@ func (*quotaMetric).release
+//@   props C15
+//@   modifies delta[&m.remaining]
+//@   ensures returned: delta(&m.remaining) == old(delta(&m.remaining)) + v
+
+//@ func (*quotaEnforcingFilePool).NewFile
+//@   props C15
+//@   ensures charged-on-success: r1 == nil ==>
+//@             delta(&fp.filesRemaining.remaining) == old(delta(&fp.filesRemaining.remaining)) - 1 &&
+//@             delta(&fp.bytesRemaining.remaining) == old(delta(&fp.bytesRemaining.remaining)) - size
+//@   ensures nothing-charged-on-error: r1 != nil ==>
+//@             delta(&fp.filesRemaining.remaining) == old(delta(&fp.filesRemaining.remaining)) &&
+//@             delta(&fp.bytesRemaining.remaining) == old(delta(&fp.bytesRemaining.remaining))
+
+//@ func (*quotaEnforcingFile).Close
+//@   props C15
+//@   requires f.pool != nil
+//@   ensures all-returned:
+//@             delta(&old(f.pool).filesRemaining.remaining) == old(delta(&f.pool.filesRemaining.remaining)) + 1 &&
+//@             delta(&old(f.pool).bytesRemaining.remaining) == old(delta(&f.pool.bytesRemaining.remaining)) + old(f.size)
+
+//@ func (*quotaEnforcingFile).Truncate
+//@   props C15
+//@   requires f.pool != nil
+//@   ensures charged-equals-growth: f.pool == old(f.pool) &&
+//@             old(delta(&f.pool.bytesRemaining.remaining)) - delta(&f.pool.bytesRemaining.remaining) == f.size - old(f.size)
+//@   ensures size-on-success: r0 == nil ==> f.size == size
+//@   ensures size-on-error: r0 != nil ==> f.size == old(f.size)
+
+//@ func (*quotaEnforcingFile).WriteAt
+//@   props C15
+//@   requires f.pool != nil
+//@   ensures charged-equals-growth: f.pool == old(f.pool) &&
+//@             old(delta(&f.pool.bytesRemaining.remaining)) - delta(&f.pool.bytesRemaining.remaining) == f.size - old(f.size)
+//@   ensures never-shrinks: f.size >= old(f.size)
+//@   ensures covers-written: r0 > 0 ==> f.size >= off + r0
